@@ -1391,6 +1391,38 @@ func checkEndianDetect(e *Env, m *e1Model) {
 			})
 		}
 	}
+	// whatever the detection looks like: the variable is only ever given one of the two values the load helpers compare it with
+	if sp := p.SSAPkg[load.PkgRoot]; sp != nil {
+		if g, ok := sp.Members["nativeEndian"].(*ssa.Global); ok {
+			fns := append([]*ssa.Function{}, p.SrcFuncs(load.PkgRoot)...)
+			if ini := sp.Func("init"); ini != nil {
+				fns = append(fns, ini)
+			}
+			for _, fn := range fns {
+				for _, b := range fn.Blocks {
+					for _, in := range b.Instrs {
+						st, ok := in.(*ssa.Store)
+						if !ok || st.Addr != ssa.Value(g) {
+							continue
+						}
+						v := st.Val
+						if mi, ok := v.(*ssa.MakeInterface); ok {
+							v = mi.X
+						}
+						name := ""
+						if ld, ok := v.(*ssa.UnOp); ok {
+							if gg, ok := ld.X.(*ssa.Global); ok && gg.Pkg != nil && gg.Pkg.Pkg.Path() == "encoding/binary" {
+								name = gg.Name()
+							}
+						}
+						r.Check(name == "LittleEndian" || name == "BigEndian", "E1.endian", load.FuncName(fn)+"/assigned-value", p.Pos(st.Pos()),
+							"nativeEndian is assigned binary."+name,
+							"nativeEndian is assigned something other than binary.LittleEndian or binary.BigEndian (for example binary.NativeEndian, which has its own type): the comparisons in the word-selection helpers are then both false, high and low word are loaded from the same offset, and every 64-bit comparison is wrong on the real kernel")
+					}
+				}
+			}
+		}
+	}
 	if !found {
 		r.Unknown("E1.endian", "init/byte-order-detection", "", "byte-order detection switch not found")
 	}
